@@ -310,6 +310,9 @@ fn absorb_written(io: &MockIo, pending: &mut Vec<Pending>, known_ids: &mut Vec<i
         if el.kids.len() >= 2 {
             let id = ber::uint_of(&el.kids[0].val);
             let app = el.kids[1].num;
+            let tg = if app == 16 { ber::uint_of(&el.kids[1].val) } else { 0 };
+            // what the server read off the wire, decoded independently of the library
+            emit(format!("\"ev\":\"SrvGot\",\"id\":{},\"app\":{},\"tg\":{}", id, app, tg));
             known_ids.push(id as i32);
             if matches!(app, 0 | 3 | 10 | 14) {
                 pending.push(Pending { id, app, sent_items: 0, abandoned: false });
@@ -384,7 +387,7 @@ fn run_scenario(seed: u64, prof: &Profile, out: &mut Vec<String>, rep: &mut Repo
                     _ => Kind::Single,
                 };
                 let target = if kind == Kind::Abandon { known_ids[rng.gen_range(0..known_ids.len())] } else { 0 };
-                let tmo: i64 = if prof.timeouts && matches!(kind, Kind::Single | Kind::Search) && rng.gen_bool(0.45) {
+                let tmo: i64 = if prof.timeouts && (matches!(kind, Kind::Single | Kind::Search) || rng.gen_bool(0.5)) && rng.gen_bool(0.45) {
                     if rng.gen_bool(0.2) { -1 } else { rng.gen_range(1..=4) }
                 } else {
                     0
